@@ -3,6 +3,7 @@ package node
 import (
 	"crypto/ecdsa"
 	"fmt"
+	"strings"
 
 	"github.com/mosaicnetworks/babble/src/crypto/keys"
 	hg "github.com/mosaicnetworks/babble/src/hashgraph"
@@ -34,9 +35,17 @@ func verifLogger() *logrus.Entry {
 	return logrus.NewEntry(l)
 }
 
+// verifLowerCaseKeys: peers are written with lower-case hex public keys (legal:
+// keys are case-insensitive, a peers.json may spell them either way).
+var verifLowerCaseKeys bool
+
 func verifPeer(i int) *peers.Peer {
 	k := verifKey(i)
-	return peers.NewPeer(keys.PublicKeyHex(&k.PublicKey), fmt.Sprintf("addr%d", i), fmt.Sprintf("node%d", i))
+	hex := keys.PublicKeyHex(&k.PublicKey)
+	if verifLowerCaseKeys {
+		hex = strings.ToLower(hex)
+	}
+	return peers.NewPeer(hex, fmt.Sprintf("addr%d", i), fmt.Sprintf("node%d", i))
 }
 
 // verifCore: a real core over n validators (keys 0..n-1), owned by validator self.
